@@ -119,7 +119,7 @@ func checkC41(c *Check) {
 					ca, cb := top.Cond.String(), inner.Cond.String()
 					okCond := ca == "!(item.calcBalance() != #2)" && cb == "!(item.calcBalance() != #-2)"
 					okMirror := mirrorLR(sa.String(), true) == sb.String()
-					okArm := regexp.MustCompile(`^if !\(item\.right\.calcBalance\(\) != #-1\)\n  call TreeNode\.bigRotateLeft recv=item\(\) -> \[\] !err tail\n  return <tail>\nelse\n  call TreeNode\.rotateLeft recv=item\(\) -> \[\] !err tail\n  return <tail>\n$`).MatchString(sa.String())
+					okArm := regexp.MustCompile(`^if \(item\.right\.calcBalance\(\) != #-1\)\n  call TreeNode\.rotateLeft recv=item\(\) -> \[\] !err tail\n  return <tail>\nelse\n  call TreeNode\.bigRotateLeft recv=item\(\) -> \[\] !err tail\n  return <tail>\n$`).MatchString(sa.String())
 					ok = okCond && okMirror && okArm
 					detail = fmt.Sprintf("thresholds +2/-2=%v; right-heavy arm (inner child balance -1 → double rotation, else single left rotation)=%v; left-heavy arm is its mirror=%v", okCond, okArm, okMirror)
 				}
